@@ -16,7 +16,7 @@ func init() { register("C01", runC01, replayC01) }
 // c01Check applies the round-trip oracle to one (parser, input). Returns true when the parser accepted.
 func c01Check(r *core.Run, worker int, p adapt.Parser, in *Input) bool {
 	var res adapt.Parsed
-	r.Begin(worker, func() string { return p.Name + " " + core.Hex(in.Bytes) })
+	r.Begin(worker, func() string { return p.Name + " " + core.HexFull(in.Bytes) })
 	panicked, _ := core.Guard(func() { res = p.Fn(in.Bytes) })
 	r.End(worker)
 	r.Evaluations.Add(1)
